@@ -156,7 +156,7 @@ class Grammar:
         """depth is an int (expression nesting) or a pair (statement nesting, expression nesting)"""
         if isinstance(depth, tuple):
             s, e = depth
-            if head in ('Stmt', 'ModuleItem'):
+            if head == 'Stmt':
                 return (s + 1, 0)
             if head in ('Expr', 'Pat'):
                 return (s, e + 1)
